@@ -3,7 +3,7 @@
 export GOFLAGS=-mod=mod GOPROXY=off GOSUMDB=off GOTOOLCHAIN=local; unset GOWORK
 D=/tmp/gy-try
 /verif/tools/scratch.sh $D >/dev/null
-if [ "${FAMILY:-1}" = 2 ]; then /verif/bin/mutgen2 -repo $D -pkg ./$1 -apply $2 >/dev/null || exit 1; else /verif/bin/mutgen -dir $D/$1 -apply $2 >/dev/null || exit 1; fi
+if [ "${FAMILY:-1}" != 1 ]; then /verif/bin/mutgen2 -repo $D -pkg ./$1 -family $FAMILY -apply $2 >/dev/null || exit 1; else /verif/bin/mutgen -dir $D/$1 -apply $2 >/dev/null || exit 1; fi
 git -C $D diff > /verif/selftest/mutants/$3.diff
 git -C $D checkout -q -- .
 grep -q "^$3 " /verif/selftest/mutants/EXPECT || echo "$3 $4" >> /verif/selftest/mutants/EXPECT
